@@ -374,7 +374,27 @@ def m_str_trim_matches(ex, n, a, f):
     pk, _ = pattern_kind(ex, f)
     pat = norm_pat(ex, a[1])
     if isinstance(pat, (StrRef, StringV)) and len(pat.chars) != 1:
-        raise Unsupported("trim_matches with a multi-char str pattern")
+        # a multi-character string pattern is removed repeatedly as a whole
+        k = len(pat.chars)
+        if k == 0:
+            return StrRef(chars)
+        if 'trim_matches' in n and 'start' not in n and 'end' not in n:
+            raise Unsupported("trim_matches with a multi-char str pattern")
+        if 'trim_end_matches' in n:
+            while len(chars) >= k:
+                cond, _ = match_at(ex, chars, len(chars) - k, pat, pk)
+                if ex.branch(cond, 'trim_end_str'):
+                    del chars[len(chars) - k:]
+                else:
+                    break
+        else:
+            while len(chars) >= k:
+                cond, _ = match_at(ex, chars, 0, pat, pk)
+                if ex.branch(cond, 'trim_start_str'):
+                    del chars[:k]
+                else:
+                    break
+        return StrRef(chars)
     if 'trim_end_matches' in n or 'trim_matches' in n:
         while chars:
             cond, _ = match_at(ex, chars, len(chars) - 1, pat, pk)
